@@ -219,6 +219,11 @@ fn seeds() -> Vec<Seed> {
         let (bytes, _) = refpdf::write(&spec, &mut Chooser::new());
         v.push(Seed { entry: "load", name: "ref:encrypt-dict".into(), bytes, byte_level: true });
     }
+    // files encrypted by the reference security handler with an EMPTY user password: Reader::read then
+    // authenticates and decrypts every string and stream while loading (decrypt-on-load path)
+    for (name, bytes, small) in encrypted_seeds() {
+        v.push(Seed { entry: "load", name: format!("ref-encrypted:{}", name), bytes, byte_level: small });
+    }
     // repository assets (token-level only)
     for a in ["example.pdf", "Incremental.pdf", "unicode.pdf"] {
         if let Ok(bytes) = std::fs::read(format!("/repo/assets/{}", a)) {
@@ -297,10 +302,111 @@ fn seeds() -> Vec<Seed> {
         v.push(Seed { entry: "xrefstm", name: "xrefstm-two-ranges".into(), bytes: dict_line("<</Type/XRef/Size 9/W[1 4 2]/Index[0 2 6 3]/Root 1 0 R>>", &data), byte_level: false });
     }
     v.push(Seed { entry: "cmap", name: "cmap".into(), bytes: CMAP_SEED.as_bytes().to_vec(), byte_level: true });
+    // degenerate but grammatical CMaps: no mapping section, empty sections, no codespace range
+    for (name, body) in [
+        ("codespace-only", "1 begincodespacerange\n<0000> <FFFF>\nendcodespacerange\n"),
+        ("two-codespaces-only", "2 begincodespacerange\n<00> <7F>\n<8000> <FFFF>\nendcodespacerange\n"),
+        ("empty-sections", "1 begincodespacerange\n<0000> <FFFF>\nendcodespacerange\n0 beginbfchar\nendbfchar\n0 beginbfrange\nendbfrange\n"),
+        ("no-codespace", "1 beginbfchar\n<0001> <0048>\nendbfchar\n"),
+        ("nothing", ""),
+        ("one-byte-codes", "1 begincodespacerange\n<00> <FF>\nendcodespacerange\n1 beginbfrange\n<20> <7E> <0020>\nendbfrange\n"),
+        ("mixed-lengths", "2 begincodespacerange\n<00> <7F>\n<8000> <FFFF>\nendcodespacerange\n2 beginbfchar\n<41> <0041>\n<8141> <4E00>\nendbfchar\n"),
+    ] {
+        let text = format!("/CIDInit /ProcSet findresource begin\n12 dict begin\nbegincmap\n/CMapName /X def\n/CMapType 2 def\n{}endcmap\nCMapName currentdict /CMap defineresource pop\nend\nend\n", body);
+        v.push(Seed { entry: "cmap", name: format!("cmap-{}", name), bytes: text.into_bytes(), byte_level: false });
+    }
     v.push(Seed { entry: "textstr", name: "utf16".into(), bytes: vec![0xfe, 0xff, 0x00, 0x41, 0xd8, 0x3d, 0xde, 0x00, 0x20, 0xac], byte_level: true });
     v.push(Seed { entry: "textstr", name: "utf8".into(), bytes: vec![0xef, 0xbb, 0xbf, b'a', 0xc3, 0xa9, 0xf0, 0x9f, 0x98, 0x80], byte_level: true });
     v.push(Seed { entry: "textstr", name: "pdfdoc".into(), bytes: vec![b'A', 0x18, 0x80, 0xa0, 0xad, 0xff, 0x7f, 0x09], byte_level: true });
     v
+}
+
+/// Small documents encrypted by the reference handler (deterministic IVs and salts) for every
+/// handler flavour, user password empty, owner password "owner"; the last object is the
+/// encryption dictionary. (name, file bytes, small enough for byte-level mutation)
+fn encrypted_seeds() -> Vec<(String, Vec<u8>, bool)> {
+    use vharness::refcrypt::{self as rc, Direction, EncDict, IvSource, MakeParams, Quirks};
+    let mut out = vec![];
+    let id0: Vec<u8> = (0u8..16).map(|i| i.wrapping_mul(17) ^ 0x5a).collect();
+    let flavours: Vec<(&str, i64, i64, i64, bool, Vec<(&str, &str)>, Option<&str>, Option<&str>, bool)> = vec![
+        ("v1r2-rc4-40", 1, 2, 40, false, vec![], None, None, true),
+        ("v2r3-rc4-128", 2, 3, 128, true, vec![], None, None, true),
+        ("v2r3-rc4-56", 2, 3, 56, true, vec![], None, None, true),
+        ("v4r4-rc4", 4, 4, 128, true, vec![("StdCF", "V2")], Some("StdCF"), Some("StdCF"), true),
+        ("v4r4-aesv2", 4, 4, 128, false, vec![("StdCF", "AESV2")], Some("StdCF"), Some("StdCF"), true),
+        ("v4r4-aesv2-nometa", 4, 4, 128, false, vec![("StdCF", "AESV2")], Some("StdCF"), Some("StdCF"), false),
+        ("v4r4-mixed-identity", 4, 4, 128, false, vec![("StdCF", "AESV2")], Some("Identity"), Some("StdCF"), true),
+        ("v5r5-aesv3", 5, 5, 256, true, vec![("StdCF", "AESV3")], Some("StdCF"), Some("StdCF"), true),
+        ("v5r6-aesv3", 5, 6, 256, true, vec![("StdCF", "AESV3")], Some("StdCF"), Some("StdCF"), true),
+    ];
+    for (name, v, r, bits, write_length, cf, stmf, strf, em) in flavours {
+        for style in [Style::Table, Style::Stream] {
+            let d = |e: Vec<(&str, Object)>| {
+                let mut x = Dictionary::new();
+                for (k, val) in e {
+                    x.set(k, val);
+                }
+                x
+            };
+            let n = |s: &str| Object::Name(s.as_bytes().to_vec());
+            let mut objects: BTreeMap<(u32, u16), Object> = BTreeMap::new();
+            objects.insert((1, 0), Object::Dictionary(d(vec![("Type", n("Catalog")), ("Pages", Object::Reference((2, 0))), ("Metadata", Object::Reference((6, 0))), ("Lang", Object::string_literal("en"))])));
+            objects.insert((2, 0), Object::Dictionary(d(vec![("Type", n("Pages")), ("Kids", Object::Array(vec![Object::Reference((3, 0))])), ("Count", Object::Integer(1))])));
+            objects.insert((3, 0), Object::Dictionary(d(vec![("Type", n("Page")), ("Parent", Object::Reference((2, 0))), ("Contents", Object::Reference((4, 0)))])));
+            objects.insert((4, 0), Object::Stream(Stream::new(Dictionary::new(), b"BT /F1 12 Tf (Hello) Tj ET".to_vec())));
+            objects.insert((5, 0), Object::Dictionary(d(vec![("Title", Object::string_literal("secret title")), ("Nested", Object::Array(vec![Object::String(vec![0xfe, 0xff, 0, 0x41], StringFormat::Hexadecimal), Object::Dictionary(d(vec![("S", Object::string_literal(""))]))]))])));
+            objects.insert((6, 0), Object::Stream(Stream::new(d(vec![("Type", n("Metadata")), ("Subtype", n("XML"))]), b"<x:xmpmeta/>".to_vec())));
+            if v >= 4 {
+                // a stream that names its own crypt filter
+                objects.insert(
+                    (7, 0),
+                    Object::Stream(Stream::new(
+                        d(vec![("Filter", Object::Array(vec![n("Crypt")])), ("DecodeParms", Object::Array(vec![Object::Dictionary(d(vec![("Type", n("CryptFilterDecodeParms")), ("Name", n("Identity"))]))]))]),
+                        b"left alone".to_vec(),
+                    )),
+                );
+            }
+            let mp = MakeParams {
+                v,
+                r,
+                key_bits: bits,
+                write_length,
+                p: -1340,
+                encrypt_metadata: em,
+                write_encrypt_metadata: !em,
+                cf: cf.iter().map(|(a, b)| (a.as_bytes().to_vec(), b.as_bytes().to_vec())).collect(),
+                stmf: stmf.map(|x| x.as_bytes().to_vec()),
+                strf: strf.map(|x| x.as_bytes().to_vec()),
+                file_key: core::array::from_fn(|i| (i as u8).wrapping_mul(7) ^ 0xa5),
+                u_tail: [0x33; 16],
+                salts: [[1; 8], [2; 8], [3; 8], [4; 8]],
+                perms_tail: [9, 8, 7, 6],
+            };
+            let up = rc::prep(r, "").expect("empty password");
+            let op = rc::prep(r, "owner").expect("owner password");
+            let (dict, key) = rc::make(&mp, &id0, &up, &op);
+            let enc = EncDict::parse(&dict).expect("reference reads its own dictionary");
+            let rep = rc::apply(&mut objects, None, &enc, &key, Direction::Encrypt(IvSource::new([0x11; 16])), Quirks::default());
+            assert!(rep.errors.is_empty(), "reference cannot encrypt its seed: {:?}", rep.errors);
+            objects.insert((8, 0), Object::Dictionary(dict));
+            let mut trailer = Dictionary::new();
+            trailer.set("Root", Object::Reference((1, 0)));
+            trailer.set("Info", Object::Reference((5, 0)));
+            trailer.set("Encrypt", Object::Reference((8, 0)));
+            trailer.set("ID", Object::Array(vec![Object::String(id0.clone(), StringFormat::Hexadecimal), Object::String(id0.clone(), StringFormat::Hexadecimal)]));
+            let spec = refpdf::FileSpec {
+                version: if v >= 5 { "2.0".into() } else { "1.6".into() },
+                mark: vec![0xe2, 0xe3, 0xcf, 0xd3],
+                style,
+                sections: vec![refpdf::Section { objects, trailer, objstm: Some(0), omit_xref: vec![], extra_members: vec![] }],
+                helper_base: None,
+            };
+            let (bytes, _) = refpdf::write(&spec, &mut Chooser::new());
+            let small = style == Style::Table && (name == "v2r3-rc4-128" || name == "v4r4-aesv2");
+            out.push((format!("{}-{}", name, if style == Style::Table { "table" } else { "stream" }), bytes, small));
+        }
+    }
+    out
 }
 
 // ---------------------------------------------------------------------------------------------
@@ -762,8 +868,88 @@ fn materialise(v: &Value) -> (String, Vec<u8>) {
             .iter()
             .map(|e| Edit { start: e[0].as_u64().unwrap() as usize, end: e[1].as_u64().unwrap() as usize, with: vharness::objjson::unhex(e[2].as_str().unwrap()) })
             .collect();
-        (s.entry.to_string(), apply_edits(&s.bytes, &edits))
+        let mut bytes = apply_edits(&s.bytes, &edits);
+        if v.get("rp").and_then(Value::as_bool) == Some(true) {
+            bytes = repair_table(&bytes).unwrap_or(bytes);
+        }
+        (s.entry.to_string(), bytes)
     })
+}
+
+/// Structure-aware companion of a mutant: if the file ends with a classic cross-reference table,
+/// point its in-use entries at the (moved) object headers and `startxref` at the (moved) table, so that
+/// an edit that changes the length of the file still reaches the code behind the cross-reference
+/// stage (object parsing, decryption on load, object streams). None when there is no such table.
+fn repair_table(b: &[u8]) -> Option<Vec<u8>> {
+    fn rfind(h: &[u8], n: &[u8]) -> Option<usize> {
+        if h.len() < n.len() {
+            return None;
+        }
+        (0..=h.len() - n.len()).rev().find(|i| &h[*i..*i + n.len()] == n)
+    }
+    fn int_at(b: &[u8], mut p: usize) -> Option<(u64, usize)> {
+        while p < b.len() && (b[p] == b' ' || b[p] == b'\r' || b[p] == b'\n' || b[p] == b'\t') {
+            p += 1;
+        }
+        let s = p;
+        while p < b.len() && b[p].is_ascii_digit() && p - s < 12 {
+            p += 1;
+        }
+        if p == s {
+            return None;
+        }
+        std::str::from_utf8(&b[s..p]).ok()?.parse().ok().map(|v| (v, p))
+    }
+    let sx = rfind(b, b"startxref")?;
+    let xr = rfind(&b[..sx], b"xref")?;
+    if xr > 0 && !(b[xr - 1] == b'\n' || b[xr - 1] == b'\r') {
+        return None;
+    }
+    let mut out = b.to_vec();
+    let mut p = xr + 4;
+    'sections: while let Some((first, p1)) = int_at(b, p) {
+        let Some((count, p2)) = int_at(b, p1) else { break };
+        let mut q = p2;
+        while q < b.len() && (b[q] == b' ' || b[q] == b'\r' || b[q] == b'\n') {
+            q += 1;
+        }
+        for i in 0..count.min(100_000) {
+            if q + 20 > sx {
+                break 'sections;
+            }
+            let e = &b[q..q + 20];
+            if e[17] == b'n' {
+                if let Ok(gen) = std::str::from_utf8(&e[11..16]).unwrap_or("x").parse::<u32>() {
+                    let pat = format!("{} {} obj", first + i, gen).into_bytes();
+                    let mut from = 0;
+                    while let Some(k) = b[from..xr].windows(pat.len()).position(|w| w == pat.as_slice()) {
+                        let at = from + k;
+                        if at == 0 || b[at - 1] == b'\n' || b[at - 1] == b'\r' || b[at - 1] == b' ' {
+                            out[q..q + 10].copy_from_slice(format!("{:010}", at).as_bytes());
+                            break;
+                        }
+                        from = at + 1;
+                    }
+                }
+            }
+            q += 20;
+        }
+        p = q;
+    }
+    // startxref value
+    let mut d0 = sx + 9;
+    while d0 < b.len() && (b[d0] == b' ' || b[d0] == b'\r' || b[d0] == b'\n') {
+        d0 += 1;
+    }
+    let mut d1 = d0;
+    while d1 < b.len() && b[d1].is_ascii_digit() {
+        d1 += 1;
+    }
+    let tail = out[d1..].to_vec();
+    out.truncate(d0);
+    out.extend_from_slice(xr.to_string().as_bytes());
+    out.extend_from_slice(&tail);
+    Some(out)
 }
 
 fn edits_json(e: &[Edit]) -> Value {
@@ -838,6 +1024,15 @@ fn main() {
             exec,
         );
     }
+    if let Some(i) = args.iter().position(|a| a == "--dump-seeds") {
+        // debugging aid: write every seed to the given directory
+        let dir = std::path::Path::new(&args[i + 1]);
+        std::fs::create_dir_all(dir).unwrap();
+        for s in seeds() {
+            std::fs::write(dir.join(format!("{}__{}", s.entry, s.name.replace([':', '/'], "_"))), &s.bytes).unwrap();
+        }
+        return;
+    }
     let run = Run::from_args("C04", "exploration");
     util::quiet_panics();
     if let Mode::Replay(path) = run.mode.clone() {
@@ -852,13 +1047,29 @@ fn main() {
     run.rule(
         "(a) every 1-edit mutant of the byte-level seeds (each position x {replace by 16 sharp bytes, insert 16 sharp bytes, flip each bit, delete, truncate}) \
          and every token-level edit of all seeds (delete / duplicate token, replace by another kind or by deep nesting, every integer by 16 extremes, by offsets, \
-         by every other integer of the file, block splices); 2-edit mutants at token sites of small seeds (thorough); (b) parametric adversarial families \
+         by every other integer of the file, block splices); every mutant of a file with a classic cross-reference table additionally in a structure-aware form whose table offsets and startxref are re-pointed at the moved objects; 2-edit mutants at token sites of small seeds (thorough); (b) parametric adversarial families \
          (nesting depth, reference and Prev cycles, xref-stream W/Index/Size, object-stream N/First, predictor parameters, all PNG row tags, ASCII85 groups, LZW \
          code sequences, inline-image geometry, CMap grammar extremes, BOM-alphabet text strings, Length/startxref extremes); nine entry points in isolated workers; \
          non-trivial = mutant differs from its seed, is distinct by content hash, and the entry point got past the trivial early error",
     );
-    run.assume("budgets: 2 s + 1 s per 64 KiB of input, 8 MiB stacks (main and rayon threads), single allocation request <= 64*len + 16 MiB, RLIMIT_AS 6 GiB; lopdf built with overflow checks");
+    run.assume("budgets: 2 s + 1 s per 64 KiB of input, 8 MiB main-thread stack, rayon's default worker stacks (2 MiB), single allocation request <= 64*len + 16 MiB, RLIMIT_AS 6 GiB; lopdf built with overflow checks");
     let sd = seeds();
+    // the encrypted seeds are only useful if the loader really decrypts them: count the ones whose Info
+    // title comes back in clear (evidence, and a machinery failure if none does)
+    {
+        let mut clear = vec![];
+        let mut not = vec![];
+        for s in sd.iter().filter(|s| s.name.starts_with("ref-encrypted:")) {
+            let ok = matches!(util::load(&s.bytes), Ok(d) if matches!(d.get_object((5, 0)).and_then(|o| o.as_dict()).and_then(|d| d.get(b"Title")), Ok(Object::String(t, _)) if t == b"secret title"));
+            if ok { clear.push(s.name.clone()) } else { not.push(s.name.clone()) }
+        }
+        if clear.is_empty() {
+            eprintln!("MACHINERY: none of the encrypted seeds is decrypted on load");
+            std::process::exit(3);
+        }
+        run.set("encrypted_seeds_decrypted_on_load", json!(clear));
+        run.set("encrypted_seeds_not_decrypted_on_load", json!(not));
+    }
     let fam = families(run.thorough);
     run.set("seeds", json!(sd.iter().map(|s| format!("{}:{} ({} bytes{})", s.entry, s.name, s.bytes.len(), if s.byte_level { ", byte-level" } else { "" })).collect::<Vec<_>>()));
     run.set("family_cases", json!(fam.len()));
@@ -866,6 +1077,7 @@ fn main() {
     let mut meta: Vec<Value> = vec![];
     let mut hashes: HashSet<u64> = HashSet::new();
     let mut dup = 0u64;
+    let mut repaired = 0u64;
     let mut push = |desc: Value, entry: &str, bytes: &[u8], cases: &mut Vec<Case>, meta: &mut Vec<Value>| {
         let mut key = entry.as_bytes().to_vec();
         key.push(0);
@@ -904,6 +1116,14 @@ fn main() {
         for e in edits {
             let bytes = apply_edits(&s.bytes, &e);
             push(json!({"s": si, "ed": edits_json(&e)}), s.entry, &bytes, &mut cases, &mut meta);
+            if s.entry == "load" || s.entry == "incload" {
+                if let Some(fixed) = repair_table(&bytes) {
+                    if fixed != bytes {
+                        repaired += 1;
+                        push(json!({"s": si, "ed": edits_json(&e), "rp": true}), s.entry, &fixed, &mut cases, &mut meta);
+                    }
+                }
+            }
         }
     }
     let n_mutants = cases.len();
@@ -912,6 +1132,7 @@ fn main() {
     }
     run.set("mutant_cases", json!(n_mutants));
     run.set("duplicate_mutants_skipped", json!(dup));
+    run.set("mutants_with_repaired_cross_reference_table", json!(repaired));
     run.sample(json!({"kind": "mutant", "descriptor": meta[n_mutants / 2], "seed": sd[meta[n_mutants / 2]["s"].as_u64().unwrap() as usize].name}));
     run.sample(json!({"kind": "family", "label": fam[fam.len() / 2].1, "entry": fam[fam.len() / 2].0}));
     let outcomes: Mutex<BTreeMap<String, u64>> = Mutex::new(BTreeMap::new());
